@@ -25,7 +25,7 @@ import (
 // count, a ceiling division, a share computed as a difference of two offsets
 // `(i+1)*total/n - i*total/n`, or a special case for the last GPU.
 func checkBenchmarkSplits(c *core.Ctx) {
-	st := c.Rule("R18.7", "running on several GPUs computes every element the single-GPU run computes: in amd/benchmarks, a function that divides a work size by the number of GPUs / queues (total / len(b.gpus), total / numGPUs, ...) to obtain a per-GPU share also handles the remainder of that division in the same function (a % by the GPU count, a ceiling division (total + n - 1) / n, a share formed as the difference of two scaled offsets, or a special case for the last GPU index); otherwise total mod n elements are never computed on n GPUs", 6)
+	st := c.Rule("R18.7", "running on several GPUs computes every element the single-GPU run computes: in amd/benchmarks, a function that divides a work size by the number of GPUs / queues (total / len(b.gpus), total / numGPUs, ...) to obtain a per-GPU share also handles the remainder of that division in the same function (a % by the GPU count, a ceiling division (total + n - 1) / n, a share formed as the difference of two scaled offsets, a share that is incremented after the division, or a special case for the last GPU index); otherwise total mod n elements are never computed on n GPUs", 6)
 	gpuCount := regexp.MustCompile(`(?i)^(uint32|uint64|int64|int32|int|uint)?\(?len\((b\.)?(gpus|queues|gpuids|gpuIDs)\)\)?$|^(b\.)?num_?gpus?$|^(uint32|uint64|int64|int|uint)\((b\.)?num_?gpus?\)$`)
 	root := filepath.Join(core.RepoDir, "amd", "benchmarks")
 	var files []string
@@ -60,7 +60,7 @@ func checkBenchmarkSplits(c *core.Ctx) {
 				for _, fl := range fd.Type.Params.List {
 					if id, ok := fl.Type.(*ast.Ident); ok && (id.Name == "int" || id.Name == "uint32" || id.Name == "uint64" || id.Name == "int64") {
 						for _, nm := range fl.Names {
-							if !regexp.MustCompile(`(?i)num|count|size|len`).MatchString(nm.Name) {
+							if !core.ProvMatch(regexp.MustCompile(`(?i)num|count|size|len`), nm.Name) {
 								indexNames[nm.Name] = true
 							}
 						}
@@ -133,11 +133,14 @@ func checkBenchmarkSplits(c *core.Ctx) {
 					if isCount(be.Y) {
 						handled = true
 					}
-				case token.EQL, token.NEQ, token.LSS, token.GEQ:
-					// a special case for the last GPU: index compared with count-1
-					s := strings.ReplaceAll(typesExprString(be.Y), " ", "")
-					if strings.HasSuffix(s, "-1") && isCount(be.Y.(*ast.BinaryExpr).X) {
-						handled = true
+				case token.EQL, token.NEQ, token.LSS, token.GEQ, token.GTR, token.LEQ:
+					// a special case for the last GPU: index compared with count-1 (either side)
+					for _, side := range []ast.Expr{be.X, be.Y} {
+						if sb, ok := side.(*ast.BinaryExpr); ok && sb.Op == token.SUB && isCount(sb.X) {
+							if lit, ok := sb.Y.(*ast.BasicLit); ok && lit.Value == "1" {
+								handled = true
+							}
+						}
 					}
 				case token.SUB:
 					// difference of two scaled offsets: both sides divide by the count
@@ -152,6 +155,37 @@ func checkBenchmarkSplits(c *core.Ctx) {
 			if len(shares) == 0 {
 				continue
 			}
+			// a ceiling written as `share := total / n; if share*n < total { share++ }`
+			shareVars := map[string]bool{}
+			ast.Inspect(fd.Body, func(n ast.Node) bool {
+				as, ok := n.(*ast.AssignStmt)
+				if !ok || len(as.Lhs) != 1 || len(as.Rhs) != 1 {
+					return true
+				}
+				for _, sh := range shares {
+					if as.Rhs[0] == ast.Expr(sh) {
+						if id, ok := as.Lhs[0].(*ast.Ident); ok {
+							shareVars[id.Name] = true
+						}
+					}
+				}
+				return true
+			})
+			ast.Inspect(fd.Body, func(n ast.Node) bool {
+				switch t := n.(type) {
+				case *ast.IncDecStmt:
+					if id, ok := t.X.(*ast.Ident); ok && t.Tok == token.INC && shareVars[id.Name] {
+						handled = true
+					}
+				case *ast.AssignStmt:
+					if t.Tok == token.ADD_ASSIGN && len(t.Lhs) == 1 {
+						if id, ok := t.Lhs[0].(*ast.Ident); ok && shareVars[id.Name] {
+							handled = true
+						}
+					}
+				}
+				return true
+			})
 			st.Instances++
 			st.Ob(handled)
 			if !handled {
